@@ -392,7 +392,7 @@ class MailboxSet(MailboxSetInterface[MailboxData]):
         return ListTree(self.delimiter).update('INBOX', *mailboxes)
 
     async def get_mailbox(self, name: str) -> MailboxData:
-        if name.upper() == 'INBOX':
+        if name.isascii() and name.upper() == 'INBOX':
             return self._inbox
         async with self._set_lock.read_lock():
             return self._set[name]
